@@ -165,3 +165,57 @@ def check_no_aliasing(cx: Cx, ob: Ob) -> None:
     d1(cx, ob)
     d2(cx, ob)
     d3(cx, ob)
+
+
+@obligation("C10-D4", "no derivation mutates an argument object: no store into, deletion from or mutator call on a parameter (mappings, sequences or converters handed in may alias the caller's - even the input converter's own - tables)", floor=6)
+def d4(cx: Cx, ob: Ob) -> None:
+    for fn, ps in scope(cx, ob):
+        s = cx.summary(fn, ob.id)
+        own = {fn.self_name} if fn.self_name else set()
+        params = {("param", p.name) for p in fn.params if p.name not in own and p.name != "cls"}
+        ob.site(f"{fn.where} {fn.qualname}", f"parameters {sorted(p[1] for p in params)}")
+        for ev, ctx in s.walk():
+            hit = None
+            if ev.kind == "store" and op(ev.a) == "item" and ev.a[1] in params:
+                hit = (ev.a[1], f"stores `{show(ev.a)[:40]}`")
+            elif ev.kind == "delete" and op(ev.a) == "item" and ev.a[1] in params:
+                hit = (ev.a[1], f"deletes `{show(ev.a)[:40]}`")
+            elif ev.kind == "expr" and op(ev.a) == "call" and op(ev.a[1]) == "attr" and ev.a[1][1] in params and ev.a[1][2] in MUTATORS:
+                hit = (ev.a[1][1], f"calls .{ev.a[1][2]}() on it")
+            if hit is not None:
+                ob.violate(
+                    fn.qualname,
+                    where(fn, ev.line),
+                    f"{fn.name} mutates its argument `{hit[0][1]}` ({hit[1]}): the caller's object - possibly a table of the input converter itself - is changed",
+                    witness="remap_curie_prefixes(c, c.synonym_to_prefix): the input's own lookup table loses entries",
+                    detail=f"mutates-argument:{hit[0][1]}",
+                )
+
+
+@obligation("C10-X10", "Converter.__init__ reads its (Iterable, possibly one-shot) `records` argument only through one materialising call (sorted/list) and keeps that fresh list - never the caller's list object, never sorted in place", floor=2)
+def x10(cx: Cx, ob: Ob) -> None:
+    from ..rules import constructor_owns_records
+
+    constructor_owns_records(cx, ob)
+
+
+@obligation("C10-D5", "no memoised factory hands the same mutable object (trie, dict, list) to several converters: a function decorated with lru_cache / cache must not return a mutable container that is stored in converter state", floor=1)
+def d5(cx: Cx, ob: Ob) -> None:
+    MUT = ("StringTrie", "dict", "list", "set", "defaultdict", "OrderedDict")
+    n = 0
+    for fn in cx.model.functions.values():
+        n += 1
+        if not any("cache" in d for d in fn.decorators) or fn.is_property:
+            continue
+        s = cx.summary(fn, ob.id)
+        for t, ctx in s.returns():
+            mutable = op(t) in ("new", "dict", "list", "set", "comp") or (op(t) == "call" and callee_name(t) in MUT)
+            if mutable:
+                ob.violate(
+                    fn.qualname,
+                    fn.where,
+                    f"{fn.name} is memoised and returns a mutable object (`{show(t)[:50]}`): every caller with equal arguments gets the SAME object, so converters derived from one another share it and a later add_prefix on one changes the answers of the other",
+                    witness="rewire(c, {}) shares c's trie; derived.add_prefix(...) makes c compress URIs it does not contain",
+                    detail="shared-memoised-object",
+                )
+    ob.site("src/curies", f"{n} functions scanned for memoised factories")
